@@ -5,6 +5,8 @@
 set -u
 PATCH=$(realpath "$1"); DEMO=$(realpath "$2"); PKG=$3; RUN=${4:-.}
 export GOFLAGS=-mod=mod GOPROXY=off GOSUMDB=off GOTOOLCHAIN=local
+RACE=""
+if head -30 "$DEMO" | grep -q -- "-race\|^// RACE"; then RACE="-race"; echo "--- (demo run with -race)"; fi
 WT=$(mktemp -d /tmp/vs.XXXXXX)
 cleanup() { git -C /repo worktree remove --force "$WT" 2>/dev/null; rm -rf "$WT"; git -C /repo worktree prune; }
 trap cleanup EXIT INT TERM
@@ -13,10 +15,10 @@ DN=$(basename "$DEMO")
 case "$DN" in *_test.go) ;; *) DN="${DN%.go}_test.go";; esac
 cp "$DEMO" "$WT/$PKG/zz_$DN"
 echo "--- demo on the clean tree (must pass)"
-(cd "$WT/$PKG" && go test -vet=off -count=1 -run "$RUN" . 2>&1 | tail -5)
+(cd "$WT/$PKG" && go test $RACE -vet=off -count=1 -run "$RUN" . 2>&1 | tail -5)
 git -C "$WT" apply "$PATCH" || { echo "PATCH DOES NOT APPLY"; exit 2; }
 echo "--- demo with the patch (must fail)"
-(cd "$WT/$PKG" && go test -vet=off -count=1 -run "$RUN" . 2>&1 | tail -15)
+(cd "$WT/$PKG" && go test $RACE -vet=off -count=1 -run "$RUN" . 2>&1 | grep -v "^      \|^  \|^$\|Goroutine\|Previous\|====" | tail -15)
 rm "$WT/$PKG/zz_$DN"
 echo "--- repository suite with the patch (must pass)"
 (cd "$WT/pkg/go" && go test -vet=off -count=1 ./... 2>&1 | grep -v "no test files")
